@@ -133,6 +133,8 @@
 #include <opm/common/utility/MemPacker.hpp>
 #include <opm/common/utility/Serializer.hpp>
 #include <opm/common/utility/MemPacker.hpp>
+#include <opm/input/eclipse/Parser/Parser.hpp>
+#include <opm/input/eclipse/Python/Python.hpp>
 #include "replay.hpp"
 template <class T> static T roundtrip(const T& in) {
     Opm::Serialization::MemPacker packer;
@@ -161,6 +163,28 @@ int main(int argc, char** argv)
         const auto b = roundtrip(a);
         return r.verdict(b.getRestartNetworkPressures() == a.getRestartNetworkPressures(),
                          std::string("getRestartNetworkPressures(): has value before, ") + (b.getRestartNetworkPressures().has_value() ? "has value" : "empty") + " after pack/unpack");
+    }
+    if (r.is("Schedule::serializeOp/re-attaches by updateUnitSystem")) {
+        // a Schedule in which wells are modified after the step that introduces them (each modification creates a new
+        // Well object of the same name): after pack / unpack the whole Schedule and every Well of every step must compare
+        // equal to the original (Well::operator== includes the re-attached unit system)
+        const std::string deck_text =
+            "RUNSPEC\nDIMENS\n 5 5 3 /\nOIL\nWATER\nGAS\nMETRIC\nSTART\n 1 'JAN' 2020 /\nWELLDIMS\n 3 10 2 3 /\nGRID\nDXV\n 5*100 /\nDYV\n 5*100 /\nDZV\n 3*10 /\nTOPS\n 25*2000 /\n"
+            "PERMX\n 75*100 /\nPERMY\n 75*100 /\nPERMZ\n 75*10 /\nPORO\n 75*0.3 /\nSCHEDULE\n"
+            "WELSPECS\n 'PROD' 'G' 1 1 1* 'OIL' /\n 'INJ' 'G' 5 5 1* 'WATER' /\n/\nCOMPDAT\n 'PROD' 1 1 1 3 'OPEN' 1* 1* 0.2 /\n 'INJ' 5 5 1 3 'OPEN' 1* 1* 0.2 /\n/\n"
+            "WCONPROD\n 'PROD' 'OPEN' 'ORAT' 1000 4* 100 /\n/\nWCONINJE\n 'INJ' 'WATER' 'OPEN' 'RATE' 800 1* 400 /\n/\nTSTEP\n 10 /\n"
+            "WCONPROD\n 'PROD' 'OPEN' 'ORAT' 1500 4* 90 /\n/\nTSTEP\n 10 /\nWCONINJE\n 'INJ' 'WATER' 'OPEN' 'RATE' 900 1* 420 /\n/\nTSTEP\n 10 /\n";
+        try {
+            const auto deck = Opm::Parser{}.parseString(deck_text);
+            const Opm::EclipseState es(deck);
+            const Opm::Schedule a(deck, es, std::make_shared<Opm::Python>());
+            const auto b = roundtrip(a);
+            for (std::size_t step = 0; step < a.size(); ++step)
+                for (const auto& wn : a.wellNames(step))
+                    if (!(a.getWell(wn, step) == b.getWell(wn, step)))
+                        return r.verdict(false, "well " + wn + " at report step " + std::to_string(step) + " differs after pack / unpack (its unit system pointer was not re-attached)");
+            return r.verdict(a == b, "Schedule with wells modified at later report steps: equal after pack / unpack = " + std::to_string(a == b));
+        } catch (const std::exception& e) { return r.verdict(false, std::string("the test schedule does not load: ") + std::string(e.what()).substr(0, 160)); }
     }
     std::cerr << "no native replay for this obligation\n";
     return 3;
